@@ -985,6 +985,47 @@ def replay_second_dtype(p):
     return _res(bad, {'dtypes': [names[dt1], names[dt2]], 'rows': n})
 
 
+def replay_cast_index(p):
+    """Index channel with a cast dtype: INDEX-MIN / INDEX-MAX of the file against the rows of the file."""
+    _quiet()
+    from dliswriter import DLISFile
+    a, b, c, n, cdi = p['args'][:5]
+    cname = ['int8', 'int16', 'uint8', 'uint16'][cdi]
+    vals = [a, b, c][:n]
+    arr = np.array(vals, dtype=np.int32)
+    df = DLISFile()
+    lf = df.add_logical_file()
+    lf.add_origin('O', file_set_number=1, creation_time='2020/01/01 00:00:00')
+    ch = lf.add_channel('IDX', data=arr, cast_dtype=getattr(np, cname))
+    lf.add_frame('FR', channels=(ch,), index_type='BOREHOLE-DEPTH')
+    path = fresh_tmp()
+    bad = ''
+    try:
+        import warnings
+        with warnings.catch_warnings():
+            warnings.simplefilter('ignore')
+            df.write(path, output_chunk_size=65536)
+        data = open(path, 'rb').read()
+        at = _frame_attrs(data)
+        lfv = strict.parse_file(data)['logical_files'][0]
+        rows = []
+        for rec, ob, pos in lfv.iflrs:
+            if rec.type == 0:
+                num, q = strict.dec_uvari(rec.body, pos)
+                rows.append(int(np.frombuffer(rec.body[q:], dtype=np.dtype(cname).newbyteorder('>'))[0]))
+        if at.get('INDEX-MIN') != min(rows) or at.get('INDEX-MAX') != max(rows):
+            bad = (f'INDEX-MIN/INDEX-MAX {at.get("INDEX-MIN")}/{at.get("INDEX-MAX")}, the rows written (int32 {vals} cast to '
+                   f'{cname}) are {rows}')
+    except strict.StrictError as e:
+        bad = f'strict reader: {e}'
+    finally:
+        try:
+            os.remove(path)
+        except OSError:
+            pass
+    return _res(bad, {'source': vals, 'cast': cname}, {'source': vals, 'cast': cname})
+
+
 def replay_declared_count(p):
     """Declared length of the record sequence against the records it yields (deterministic), on the real package."""
     _quiet()
